@@ -28,6 +28,18 @@ def _case(seed, i):
         pool = FS.OPT_INCONSISTENT
         if case["entry"] == "api-tok":
             case["fault"]["changed"] = dict(pool[(j + 3 * seed) % len(pool)])
+    if kind == "opt_unknown":
+        # stratified: misspelt names, the other geometry's names, and the latter after a
+        # valid run of the other entry point in the same interpreter
+        j = i // len(FS.KINDS) + seed
+        f = case["fault"]
+        f.pop("prelude", None)
+        if j % 3:
+            pool = FS.OPT_UNKNOWN_OTHER[case["entry"]]
+            f["extra"] = dict(pool[(j // 3) % len(pool)])
+            f["prelude"] = j % 3 == 1
+        else:
+            f["extra"] = dict(FS.OPT_UNKNOWN[(j // 3) % len(FS.OPT_UNKNOWN)])
     if kind == "in_corrupt":
         # stratified: every block of the file and every corruption kind gets its turn
         j = i // len(FS.KINDS)
